@@ -4,7 +4,7 @@ CONSTANT Limits = {"pi", "low", "inf"}
 CONSTANT Fits = {"dlite", "taubinSVD"}
 CONSTANT Methods = {"default", "lsq_linear", "lsq", "fix_stress"}
 CONSTANT BModes = {"static", "velocity"}
-CONSTANT PressuresKeyed = FALSE
-CONSTANT ExcludedReset = FALSE
+CONSTANT PressuresKeyed = TRUE
+CONSTANT ExcludedReset = TRUE
 POSTCONDITION Done
 CHECK_DEADLOCK FALSE
